@@ -292,15 +292,15 @@ pub fn run_ops(line: &str, raw: bool) -> String {
             }
             "L" => {
                 let uri = pct(&api);
-                let res = std::panic::catch_unwind(std::panic::AssertUnwindSafe(|| rt.block_on(f.get_list(&uri))));
+                let res = std::panic::catch_unwind(std::panic::AssertUnwindSafe(|| rt.block_on(f.get_list_full(&uri))));
                 match res {
                     Err(_) => out.push("Lpanic".into()),
                     Ok(None) => out.push("L-".into()),
-                    Ok(Some((st, body))) => {
+                    Ok(Some((st, ct, body))) => {
                         if raw { out.push(hex(&body)); continue }
                         let needles: Vec<Vec<u32>> = routers.iter().filter_map(|r| r.tlvs.as_ref())
                             .flat_map(|(n, d, _)| [trunc60(n), trunc60(d)]).collect();
-                        out.push(show_page(&format!("L{st}"), &body, &needles));
+                        out.push(show_page(&format!("L{st}:{}", ctype_class(&ct)), &body, &needles));
                     }
                 }
             }
@@ -310,11 +310,11 @@ pub fn run_ops(line: &str, raw: bool) -> String {
                 path.extend(field(op[2]).wire);
                 let uri = pct(&path);
                 let id = routers[k].id;
-                let res = std::panic::catch_unwind(std::panic::AssertUnwindSafe(|| rt.block_on(f.get_info(id, &uri))));
+                let res = std::panic::catch_unwind(std::panic::AssertUnwindSafe(|| rt.block_on(f.get_info_full(id, &uri))));
                 match res {
                     Err(_) => out.push("Ipanic".into()),
                     Ok(None) => out.push("I-".into()),
-                    Ok(Some((st, body))) => {
+                    Ok(Some((st, ct, body))) => {
                         if raw { out.push(hex(&body)); continue }
                         let r = &routers[k];
                         let (n, d, e) = r.tlvs.clone().unwrap_or_default();
@@ -322,7 +322,42 @@ pub fn run_ops(line: &str, raw: bool) -> String {
                         let es = errs.get(&r.label).cloned().unwrap_or_default();
                         let skip = es.len().saturating_sub(10);
                         needles.extend(es[skip..].iter().cloned());
-                        out.push(show_page(&format!("I{st}"), &body, &needles));
+                        out.push(show_page(&format!("I{st}:{}", ctype_class(&ct)), &body, &needles));
+                    }
+                }
+            }
+            "Q" => {
+                // GET <api>?n=v&n=v..: every byte of a name / value that is not alphanumeric is percent-encoded
+                let enc_q = |b: &[u8]| -> String { b.iter().map(|&c| if c.is_ascii_alphanumeric() { (c as char).to_string() } else { format!("%{:02X}", c) }).collect() };
+                let flds: Vec<Field> = op[1..].iter().map(|t| field(t)).collect();
+                let pairs: Vec<String> = flds.chunks(2).map(|nv| format!("{}={}", enc_q(&nv[0].wire), enc_q(&nv[1].wire))).collect();
+                let uri = format!("{}?{}", pct(&api), pairs.join("&"));
+                let res = std::panic::catch_unwind(std::panic::AssertUnwindSafe(|| rt.block_on(f.get_list_full(&uri))));
+                match res {
+                    Err(_) => out.push("Qpanic".into()),
+                    Ok(None) => out.push("Q-".into()),
+                    Ok(Some((st, ct, body))) => {
+                        if raw { if st == 200 { out.push(hex(&body)) } continue }
+                        let class = ctype_class(&ct);
+                        if st == 200 {
+                            let needles: Vec<Vec<u32>> = routers.iter().filter_map(|r| r.tlvs.as_ref())
+                                .flat_map(|(n, d, _)| [trunc60(n), trunc60(d)]).collect();
+                            out.push(show_page(&format!("Q200:{class}"), &body, &needles));
+                        } else {
+                            // an error answer: which of the request's values does it quote, and can a client take it for markup?
+                            let text = match std::str::from_utf8(&body) { Ok(s) => u32s(s), Err(_) => { out.push(format!("Q{st}:NOT-UTF8")); continue } };
+                            let quoted: Vec<&Field> = flds.chunks(2).map(|nv| &nv[1]).collect();
+                            if class == "plain" {
+                                // the value the answer is about: the first one it contains verbatim
+                                let h = quoted.iter().any(|q| contains(&q.text, &text));
+                                out.push(format!("Q{st}:plain H={}", if h { '1' } else { '0' }));
+                            } else {
+                                let evs = tokenise(&text);
+                                let shown: Vec<u32> = unescape(&evs.iter().filter_map(|e| if let Ev::Text(c) = e { Some(*c) } else { None }).collect::<Vec<_>>());
+                                let h = quoted.iter().any(|q| contains(&q.text, &shown));
+                                out.push(format!("Q{st}:markup[{}] H={}", chunk_str(&evs.iter().collect::<Vec<_>>()), if h { '1' } else { '0' }));
+                            }
+                        }
                     }
                 }
             }
@@ -354,6 +389,18 @@ pub fn run_ops(line: &str, raw: bool) -> String {
         }
     }
     out.join(" ")
+}
+
+/// how a client treats the body: `html`, `plain`, `none` (no Content-Type: sniffed), `other`
+fn ctype_class(ct: &Option<Vec<u8>>) -> &'static str {
+    match ct {
+        None => "none",
+        Some(v) => {
+            let v = String::from_utf8_lossy(v).to_ascii_lowercase();
+            let mt = v.split(';').next().unwrap_or("").trim().to_string();
+            if mt == "text/html" { "html" } else if mt == "text/plain" { "plain" } else { "other" }
+        }
+    }
 }
 
 fn hex(b: &[u8]) -> String { if b.is_empty() { "-".into() } else { b.iter().map(|x| format!("{:02x}", x)).collect() } }
